@@ -298,6 +298,132 @@ def product(alpha, n):
             yield p + [a]
 
 
+# ------------------------------------------------------------------ boundary search for the Punycode arithmetic
+# An instrumented Python transcription of idna.c:222-312 (NOT the reference: expected outputs come from
+# Python's codec).  It records which arithmetic boundaries a label exercises, so that the generator can
+# guarantee that every run contains labels sitting exactly on / next to each constant of RFC 3492
+# (tmin 1, tmax 26, skew 38, damp 700, initial_bias 72, loop threshold ((36-1)*26)/2 = 455).
+M32 = 0xFFFFFFFF
+
+
+def puny_events(cps):
+    """set of boundary events hit by the label with these code points"""
+    ev = set()
+    h = sum(1 for c in cps if c < 128)
+    todo = len(cps) - h
+    n, bias, delta, first = 128, 72, 0, True
+    step = 0
+    while todo > 0:
+        m = min(c for c in cps if c >= n)
+        delta = (delta + (m - n) * (h + 1)) & M32
+        n = m
+        for c in cps:
+            if c < n:
+                delta = (delta + 1) & M32
+            if c != n:
+                continue
+            step += 1
+            last = todo == 1            # nothing is encoded after this adaptation
+            k, q = 36, delta
+            while True:
+                t = 1
+                if k > bias:
+                    t = k - bias
+                kb = k - bias
+                if -1 <= kb <= 2 or 25 <= kb <= 27:
+                    ev.add(("k-bias", kb))
+                if t > 26:
+                    t = 26
+                if -1 <= q - t <= 1:
+                    ev.add(("q-t", q - t, min(t, 2) if t < 26 else 26))
+                if q < t:
+                    break
+                x = q - t
+                y = 36 - t
+                q = x // y
+                k += 36
+            ev.add(("ndigits", min(k // 36, 6)))
+            if first:
+                for b in (699, 700, 701, 1399, 1400, 1401):
+                    if delta == b:
+                        ev.add(("damp", b, last))
+                delta //= 700
+            else:
+                ev.add(("half-odd", delta & 1))
+                delta //= 2
+            first = False
+            h += 1
+            if delta // h in (0, 1) and delta in (h - 1, h, h + 1):
+                ev.add(("delta/h", delta - h, last))
+            delta += delta // h
+            bias = 0
+            it = 0
+            while True:
+                if 453 <= delta <= 457:
+                    ev.add(("loop455", delta, it, last))       # the value compared with 455
+                if not delta > 455:
+                    break
+                delta //= 35
+                bias += 36
+                it += 1
+            if delta in (0, 1, 2, 37, 38, 39, 454, 455):
+                ev.add(("skew", delta, last))
+            bias += 36 * delta // (delta + 38)
+            if bias in (71, 72, 73):
+                ev.add(("bias72", bias, last))
+            delta = 0
+            todo -= 1
+        delta += 1
+        n += 1
+    return ev
+
+
+SEARCH_POOL = ([0xE9, 0xFC, 0xFD, 0x1B3, 0x3B1, 0x3C9, 0x454, 0x5D0, 0x627, 0x905, 0xE01, 0x10D0, 0x1E00, 0x2020, 0x20AC,
+                0x3042, 0x30A2, 0x4E2D, 0x9FFF, 0xAC00, 0xD7A3, 0xE000, 0xFB01, 0xFFFD, 0x10000, 0x1F600, 0x2A6D6, 0x10FFFF,
+                0x80, 0x7FF, 0x800])
+_BOUNDARY_CACHE = {}
+
+
+def boundary_labels(seed, tries, per_event=3):
+    """systematic families + random mixed-script labels; keeps up to per_event labels for every distinct event.
+    Events whose adaptation step is not the last one come first (only then the bias influences the output)."""
+    key = (seed, tries, per_event)
+    if key in _BOUNDARY_CACHE:
+        return _BOUNDARY_CACHE[key]
+    rng = SplitMix(seed)
+    found = {}
+    def consider(cps):
+        for e in puny_events(cps):
+            l = found.setdefault(e, [])
+            if len(l) < per_event and cps not in l:
+                l.append(list(cps))
+    # systematic: k ASCII letters, then c1 < c2 = c1 + gap, then a far third code point (non-final adaptation)
+    for nasc in (0, 1, 2, 3):
+        for base in (0xE9, 0x3B1, 0x4E2D):
+            for gap in range(1, 1400):
+                consider([0x61] * nasc + [base, base + gap, 0x1F600])
+                if gap % 3 == 0:
+                    consider([base + gap] + [0x7A] * nasc + [base, 0xFFFD])
+    for first in range(0x80, 0x80 + 1500):                       # damp 700 on the first code point
+        consider([first, 0x3B1, 0x4E2D])
+    for _ in range(tries):
+        n = rng.range(3, 6)
+        cps = []
+        for _ in range(n):
+            r = rng.below(10)
+            if r < 2:
+                cps.append(rng.choice([0x61, 0x7A, 0x30, 0x2D, 0x6E]))
+            elif r < 6:
+                cps.append(rng.choice(SEARCH_POOL) + rng.below(64))
+            else:
+                cps.append(rng.range(0x80, 0x2FFF))
+        cps = [c if c <= 0x10FFFF and not 0xD800 <= c <= 0xDFFF else 0xFFFD for c in cps]
+        if any(c >= 128 for c in cps):
+            consider(cps)
+    _BOUNDARY_CACHE[key] = found
+    return found
+
+
 def gen_lines(ctx, rng, boost=1):
     """list of (line, tag); tag = generation class (for notes)"""
     L = []
@@ -331,6 +457,24 @@ def gen_lines(ctx, rng, boost=1):
     hosts += ["a..b", "a.", ".", "..", "。", "a．｡b", "www.bücher.example.", "xn--abc.ü"]
     hosts += long_hostnames()
     hosts += [gen_hostname(rng) for _ in range(ctx.scale(150, 3000) * boost)]
+    # labels found by the boundary search: every arithmetic constant of the encoder hit at b-1, b, b+1
+    found = boundary_labels(rng.next(), ctx.scale(25000, 250000) * boost)
+    nb = 0
+    for e in sorted(found, key=repr):
+        for cps in found[e]:
+            lab = "".join(map(chr, cps))
+            L.append((f"ta {hx(lab.encode('utf-8'))} 256", "ta-boundary"))
+            L.append((f"ta {hx(('www.' + lab + '.example').encode('utf-8'))} 256", "ta-boundary"))
+            nb += 1
+    ctx.notes["text_punycode_boundaries"] = {
+        "events_hit": len(found), "labels": nb,
+        "loop455_nonfinal": sorted({e[1] for e in found if e[0] == "loop455" and not e[3]}),
+        "loop455_at_iteration>0": sorted({e[1] for e in found if e[0] == "loop455" and e[2] > 0}),
+        "damp": sorted({e[1] for e in found if e[0] == "damp"}),
+        "skew": sorted({e[1] for e in found if e[0] == "skew"}),
+        "k-bias": sorted({e[1] for e in found if e[0] == "k-bias"}),
+        "q-t": sorted({(e[1], e[2]) for e in found if e[0] == "q-t"}),
+        "bias72": sorted({e[1] for e in found if e[0] == "bias72"})}
     sizes_budget = ctx.scale(60, 800) * boost
     for i, h in enumerate(hosts):
         b = h.encode("utf-8")
